@@ -66,6 +66,14 @@ MAX_ITER = 12
 # --------------------------------------------------------------------------- cases
 def gen_case(rng):
     P = spine.gen_program(rng, evidence=False, cyclic=rng.random() < 0.15)
+    if rng.random() < 0.3:
+        # a body-less annotated disjunction with 3-4 heads (mixed fixed / learnable heads are chosen below) plus the program
+        nh = rng.choice([3, 4, 4])
+        ps = [F(rng.randint(1, 2), 10) for _ in range(nh)]
+        P["stmts"] = [s for s in P["stmts"] if s[0] != "ad"]
+        for i in range(nh):
+            P["preds"]["g%d" % i] = (0, 0)
+        P["stmts"].append(("ad", [(ps[i], ("g%d" % i, ())) for i in range(nh)], []))
     stmts = []
     for s in P["stmts"]:
         if s[0] == "ad" and rng.random() < 0.5:
@@ -171,6 +179,10 @@ def mle_expectations(case):
         if s[0] == "pf":
             heads = [tuple(s[2])]
         elif s[0] == "ad" and not s[2]:
+            if sorted(his) != list(range(len(s[1]))):
+                # mixed AD (some heads keep a constant probability): the learnable heads share the remaining mass, so the
+                # constrained optimum is not the plain relative frequency - the property's MLE clause does not apply
+                continue
             heads = [tuple(h) for _, h in s[1]]
             if len(set((h[0], tuple(h[1])) for h in heads)) != len(heads):
                 continue
@@ -304,13 +316,27 @@ def judge(case, rec, config):
             out.append(("weight %s = %r after iteration %d is not a probability" % (
                 rec["names"][badw[0][0][0]], badw[0][1], i + 1), dict(base, kind="invalid-parameter")))
             break
+    # constant probabilities of the NON-learnable heads of every annotated disjunction that has learnable heads (taken
+    # from the program, not from LFI's own bookkeeping): the learned weights plus these must not exceed 1
+    fixed_of = {}
+    tun_by_stmt = {}
+    for si, hi in case["tun"]:
+        tun_by_stmt.setdefault(si, set()).add(hi)
+    for si, his in tun_by_stmt.items():
+        st = case["program"]["stmts"][si]
+        if st[0] == "ad":
+            fx = sum(float(F(p)) for hi, (p, h) in enumerate(st[1]) if hi not in his)
+            for hi, (p, h) in enumerate(st[1]):
+                if hi in his:
+                    fixed_of[h[0]] = fx
     for i, it in enumerate(its):
         done = False
         for avail, idx in rec["adatoms"]:
-            if len(idx) > 1:
+            if len(idx) >= 1:
                 keys = {k for (j, k) in it["w"] if j in idx}
+                fixed = max([fixed_of.get(rec["names"][j].split("(")[0].split("::")[-1], 0.0) for j in idx] + [0.0])
                 for k in keys:
-                    s = sum(it["w"].get((j, k), 0.0) for j in idx)
+                    s = sum(it["w"].get((j, k), 0.0) for j in idx) + fixed
                     if s > 1 + 1e-9:
                         out.append(("the weights of the annotated disjunction %s sum to %r after iteration %d" % (
                             [rec["names"][j] for j in idx], s, i + 1), dict(base, kind="ad-sum")))
